@@ -117,7 +117,11 @@ class Prop:
               "Read-only operations are pure functions of a forest in their models (Traverse.v, DictList.v, Filter.v): 'the tree is unchanged' "
               "cannot be a theorem there and is NOT claimed as one - it is checked on the implementation only, by the snapshot oracle of "
               "run_probes (~50 read-only calls, clean and with an exception at every invocation k of their callback, deep pointer snapshot "
-              "before/after, and the exception must escape: no result / no tree is returned).  Stated as theorems for these callbacks: a "
+              "before/after, and the exception must escape: no result / no tree is returned; every node of the probed trees carries "
+              "metadata set through set_meta / update_meta, the snapshot holds identity and content of every meta dict, and what a "
+              "read-only operation hands back - copy, filtered, diff results in both directions x ordered x reduce, diffs against "
+              "reordered / pruned / extended copies - is edited afterwards (meta and structure) before the source is compared: aliasing of "
+              "metadata or nodes between a result and its inputs is an oracle failure).  Stated as theorems for these callbacks: a "
               "visitor raising at invocation k ends the traversal after exactly k+1 calls and is re-raised (C06 model); from_dict returns a "
               "tree only if the mapper raised on no item (C14 model); Node.from_dict(mapper) on an attached node at machine level "
               "(FaultReadOnly.op_from_dict_m, rollback of D48; tied by the probes 'Node.from_dict(mapper) ...' only, the op vocabulary of "
@@ -135,6 +139,11 @@ class Prop:
             yield dict(kind="hist", univ=c["univ"], ops=c["ops"], corpus=c["id"])
         for h in M.late_collision_hists():
             yield dict(kind="hist", univ=h["univ"], ops=h["ops"], label="late-collision")
+        tg = M.typed_collision_hists()
+        for gi, g in enumerate(tg):
+            if quick and gi % 3 != 0 and gi < len(tg) - 2:
+                continue
+            yield dict(kind="alts", univ=g["univ"], setup=g["setup"], alts=g["alts"], label=g["label"])
         for c in RAW_CORPUS:
             yield dict(kind="probe", univ=c["univ"], setup=c["setup"], typed=c["typed"], only=c["only"], corpus=c["id"], label="corpus " + c["id"])
         # (b) invalid arguments
@@ -200,8 +209,8 @@ class Prop:
                         ["rename", 0, ids[0], new_d], ["del", 0, {"d": new_d}],
                         ["from_dict", 0, ids[-1], [[f1, None, [[f2, None, []], [f3, None, []]]], [new_d, None, []]]],
                         ["from_dict", 0, ids[-1], [[f1, None, []], [f2, None, [[f3, None, [[new_d, None, []]]]]]]]]
-                if n >= (3 if quick else 4):
-                    cops = cops[::2]
+                if n >= (2 if quick else 4):
+                    cops = cops[::2] if n < 3 or not quick else cops[::3]
                 for op in cops:
                     hs, _ = M.calc_fault_hists(univ, setup, op, fn="name")
                     for h in hs:
@@ -298,7 +307,7 @@ class Prop:
                 k = op[0] + ("" if res[0] == 0 else ":" + H.ERR_NAMES.get(res[1], str(res[1])))
                 kinds[k] = kinds.get(k, 0) + 1
             top = max(kinds, key=kinds.get) if kinds else ""
-            stats = dict(kind="single-op group", nodes=len(desc["setup"]) - 4, label=desc.get("label", ""), most_frequent=top,
+            stats = dict(kind="single-op group", nodes=sum(1 for o in desc["setup"] if o[0] == "add"), label=desc.get("label", ""), most_frequent=top,
                          refused_share=round(refused / max(1, len(runs)), 1))
             nontrivial = refused > 0
             if fails:
